@@ -210,8 +210,12 @@ def run(chk, model_ok=True):
         if got != want:
             fail(f"user.py hands the socket {got} for a {akt}/{pkt} user, expected {want}", "#")
             continue
-        s = sessions.Sess(env, peer, rng)
+        # half of them the way the clients do without an engine id: default user, discovery, set_keys
+        s = sessions.Sess(env, peer, rng, deferred=k % 2 == 1)
         all_sess.append(s)
+        if s.deferred and not sessions.discovery_flow(s):
+            fail(f"{s.label}: discovery / set_keys flow failed: {[r['result'] for r in s.records if r['kind'] != 'send'][-2:]}", s.line())
+            continue
         for _ in range(2):
             rec = s.send("get", sessions.rand_oid_text(rng))
             if rec["result"][0] != "ok":
